@@ -314,14 +314,9 @@ def validate(seed, tier):
                     dict(eid=2, nids=[1, 3], opics=[[2, 2.0]]), dict(eid=3, nids=[2, 3], opics=[[0, 3.0]])], nid_terminal=[0, 3])
     n = 0
     for op in ('simplify', 'flip'):
-        f = concrete.CHECKS['graph_rewrite'](dict(op=op, graph=g))
-        if f:
-            raise runner.HarnessError(f'concrete rewrite check fails on the unchanged tree: {f}')
+        runner.concrete_check('graph_rewrite', dict(op=op, graph=g))
         n += 1
-    f = concrete.CHECKS['graph_rewrite'](dict(op='add', graph=g, other=g))
-    if f:
-        raise runner.HarnessError(f'concrete add check fails on the unchanged tree: {f}')
-    return dict(concrete_rewrites_checked=n + 1)
+    runner.concrete_check('graph_rewrite', dict(op='add', graph=g, other=g))
 
 
 def evidence(tier, seed, total, per_task, val):
